@@ -133,6 +133,137 @@ Lemma stale_partial : forall c s m,
   id_unanswered s m -> resp_hooks_from (s_script s) (snd (handle_msg c true s m)).
 Proof. intros c s m H. exact (proj2 (handle_msg_client_fresh c s m (or_intror H))). Qed.
 
+(* ---------- the resolver addon answers the request it is given; several clients ---------- *)
+
+Lemma resolved_fields : forall q rc n an,
+  m_id (resolved q rc n an) = m_id q /\ m_query (resolved q rc n an) = false
+  /\ m_op (resolved q rc n an) = m_op q /\ m_rd (resolved q rc n an) = m_rd q
+  /\ m_qn (resolved q rc n an) = m_qn q /\ m_qs (resolved q rc n an) = m_qs q
+  /\ ((m_id q < 65536)%N -> exists h l rest, m_packed (resolved q rc n an) = h :: l :: rest /\ u16be h l = m_id q).
+Proof.
+  intros q rc n an. repeat split.
+  intros H. pose proof (u16be_put (m_id q) H) as P.
+  cbn [resolved m_packed]. unfold put_u16be in *. cbn [app].
+  eexists _, _, _. split; [reflexivity | exact P].
+Qed.
+
+Lemma handle_request_resolved c s i f m rc n an rest :
+  f_resp f = None -> f_err f = false -> s_script s = AResolve rc n an :: ANone :: rest ->
+  snd (handle_request c s i f m) =
+    [OHook HReq (f_ord f) (Some m) None false;
+     OHook HResp (f_ord f) (Some m) (Some (resolved m rc n an)) false;
+     OSend true (pack_message (resolved m rc n an) (ctcp c))].
+Proof.
+  intros Hn He Hs. unfold handle_request, handle_response, pop_act, hook_of. rewrite Hs.
+  cbn. rewrite Hn, He. reflexivity.
+Qed.
+
+(* Regular dns mode, a client message handled while the next two addon replies are: the resolver
+   answers at dns_request, nothing at dns_response.  Exactly one reply is sent, and it is the
+   answer built from THIS message (so it has its id and question section), whatever the state
+   of the connection and whatever other connections do. *)
+Lemma resolver_reply_own_query : forall c s m rc n an rest,
+  fix_fresh c = true -> s_crashed s = false ->
+  s_script s = AResolve rc n an :: ANone :: rest ->
+  exists ord,
+  snd (handle_msg c true s m) =
+    [OHook HReq ord (Some m) None false;
+     OHook HResp ord (Some m) (Some (resolved m rc n an)) false;
+     OSend true (pack_message (resolved m rc n an) (ctcp c))].
+Proof.
+  intros c s m rc n an rest Hf Hc Hs. unfold handle_msg. rewrite Hc, Hf. cbn [andb].
+  destruct (find_flow (m_id m) (s_flows s)) as [f|].
+  - destruct (answered f) eqn:Ea.
+    + exists (s_next s).
+      change (new_flow (retire (note_msg s true m) f))
+        with (mkFlow (s_next s) None None false true, snd (new_flow (retire (note_msg s true m) f))).
+      apply (handle_request_resolved c _ (m_id m) (mkFlow (s_next s) None None false true) m rc n an rest);
+        [reflexivity | reflexivity | exact Hs].
+    + exists (f_ord f). unfold answered in Ea.
+      destruct (f_resp f) eqn:Er; [discriminate|].
+      apply (handle_request_resolved c (note_msg s true m) (m_id m) f m rc n an rest Er Ea). exact Hs.
+  - exists (s_next s).
+    change (new_flow (note_msg s true m))
+      with (mkFlow (s_next s) None None false true, snd (new_flow (note_msg s true m))).
+    apply (handle_request_resolved c _ (m_id m) (mkFlow (s_next s) None None false true) m rc n an rest);
+      [reflexivity | reflexivity | exact Hs].
+Qed.
+
+Lemma nth_error_set_nth_eq {A} (x : A) : forall l i s, nth_error l i = Some s -> nth_error (set_nth i x l) i = Some x.
+Proof.
+  induction l as [|y l IH]; intros [|i] s H; cbn in *; try discriminate; [reflexivity|].
+  eapply IH. exact H.
+Qed.
+
+Lemma nth_error_set_nth_neq {A} (x : A) : forall l i j, i <> j -> nth_error (set_nth j x l) i = nth_error l i.
+Proof.
+  induction l as [|y l IH]; intros i j H; [destruct j; reflexivity|].
+  destruct j as [|j]; destruct i as [|i]; cbn; try reflexivity; try congruence.
+  apply IH. congruence.
+Qed.
+
+Lemma proj_outs_app i a b : proj_outs i (a ++ b) = proj_outs i a ++ proj_outs i b.
+Proof. unfold proj_outs. rewrite filter_app, map_app. reflexivity. Qed.
+
+Lemma proj_outs_tag i j (o : list out) :
+  proj_outs i (map (fun x => (j, x)) o) = if Nat.eqb j i then o else [].
+Proof.
+  unfold proj_outs. induction o as [|x o IH]; cbn [map filter fst]; [destruct (Nat.eqb j i); reflexivity|].
+  destruct (Nat.eqb j i) eqn:E; cbn [map snd]; [rewrite IH; reflexivity | exact IH].
+Qed.
+
+(* every connection runs as if it were alone: its final state and its commands are those of the
+   run of its own events *)
+Lemma sys_run_proj unpack c : forall es ss i s,
+  nth_error ss i = Some s ->
+  nth_error (fst (sys_run unpack c ss es)) i = Some (fst (run unpack c s (proj_events i es)))
+  /\ proj_outs i (snd (sys_run unpack c ss es)) = snd (run unpack c s (proj_events i es)).
+Proof.
+  induction es as [|[j e] es IH]; intros ss i s Hs; [split; [exact Hs | reflexivity]|].
+  cbn [sys_run]. unfold proj_events. cbn [filter fst].
+  destruct (Nat.eqb j i) eqn:E.
+  - apply Nat.eqb_eq in E. subst j. rewrite Hs. cbn [map snd run].
+    destruct (step unpack c s e) as [s1 o1].
+    destruct (IH (set_nth i s1 ss) i s1 (nth_error_set_nth_eq s1 ss i s Hs)) as [I1 I2].
+    fold (proj_events i es) in *.
+    destruct (sys_run unpack c (set_nth i s1 ss) es) as [ss2 o2].
+    destruct (run unpack c s1 (proj_events i es)) as [s2 o3]. cbn [fst snd] in *.
+    split; [exact I1|]. rewrite proj_outs_app, proj_outs_tag, Nat.eqb_refl, I2. reflexivity.
+  - apply Nat.eqb_neq in E. fold (proj_events i es).
+    destruct (nth_error ss j) as [sj|]; [|apply IH; exact Hs].
+    destruct (step unpack c sj e) as [s1 o1].
+    assert (Hs' : nth_error (set_nth j s1 ss) i = Some s)
+      by (rewrite nth_error_set_nth_neq; [exact Hs | congruence]).
+    destruct (IH (set_nth j s1 ss) i s Hs') as [I1 I2].
+    destruct (sys_run unpack c (set_nth j s1 ss) es) as [ss2 o2]. cbn [fst snd] in *.
+    split; [exact I1|]. rewrite proj_outs_app, proj_outs_tag.
+    destruct (Nat.eqb j i) eqn:E2; [apply Nat.eqb_eq in E2; congruence|]. exact I2.
+Qed.
+
+Lemma in_proj_outs i o os : In (i, o) os -> In o (proj_outs i os).
+Proof.
+  intros H. unfold proj_outs. apply in_map_iff. exists (i, o). split; [reflexivity|].
+  apply filter_In. split; [exact H | apply Nat.eqb_refl].
+Qed.
+
+(* concurrent histories: any interleaving of the events of any number of connections; what
+   connection i is sent answers a query extracted from connection i *)
+Lemma concurrent_replies : forall unpack c inits es i script conn,
+  fix_drop c = true ->
+  nth_error inits i = Some (script, conn) ->
+  let r := sys_run unpack c (map (fun p => init (fst p) (snd p)) inits) es in
+  exists si, nth_error (fst r) i = Some si /\
+  forall data, In (i, OSend true data) (snd r) -> answers_query c script (s_cq si) (s_sm si) data.
+Proof.
+  intros unpack c inits es i script conn Hd Hi r.
+  assert (Hs : nth_error (map (fun p => init (fst p) (snd p)) inits) i = Some (init script conn))
+    by (rewrite nth_error_map, Hi; reflexivity).
+  destruct (sys_run_proj unpack c es _ i _ Hs) as [P1 P2]. fold r in P1, P2.
+  exists (fst (run unpack c (init script conn) (proj_events i es))). split; [exact P1|].
+  intros data Hin. apply in_proj_outs in Hin. rewrite P2 in Hin.
+  exact (proj2 (reply_fixed unpack c script conn (proj_events i es) Hd) data Hin).
+Qed.
+
 (* ---------- witnesses ---------- *)
 
 Definition q1 := mkMsg 1 true 0 true 1 [x61] [x01].
@@ -162,7 +293,7 @@ Proof.
   - exists 1, (Some r2), false. vm_compute. auto 10.
   - exists [x04]. split; [vm_compute; auto 10|].
     intros (m & Hd & [Ha|(q & Hq & Hid & Hm)]).
-    + destruct Ha.
+    + destruct Ha as [[]|(rc & n & an & q & [] & _)].
     + vm_compute in Hq. destruct Hq as [Hq|[]]. subst q.
       destruct Hm as [Hm|Hm].
       * subst m. vm_compute in Hd. discriminate.
@@ -208,7 +339,7 @@ Proof.
   split; [reflexivity|]. cbv zeta. intros H.
   destruct (H 0 (Some q1b) (Some r1) false) as (r & _ & Hin).
   - vm_compute. auto.
-  - vm_compute in Hin. exact Hin.
+  - vm_compute in Hin. destruct Hin as [Hin|(rc & n & an & q & Hin & _)]; exact Hin.
 Qed.
 
 Lemma nonvacuous :
